@@ -230,6 +230,12 @@ func (n *Namespace) add(c *serverConn, auth json.RawMessage) (*serverSocket, err
 func (n *Namespace) doConnect(socket *serverSocket) error {
 	n.sockets.set(socket)
 
+	// Make the socket routable on its connection before the CONNECT packet is sent (inside `onConnect`).
+	// Otherwise an event the client sends right after it receives CONNECT can arrive
+	// before the connection knows the socket, and would be treated as an invalid packet.
+	socket.conn.sockets.set(socket)
+	socket.conn.nsps.set(n)
+
 	// It is paramount that the internal `onconnect` logic
 	// fires before user-set events to prevent state order
 	// violations (such as a disconnection before the connection
